@@ -159,7 +159,9 @@ def grid(rng, thorough):
     hosts_ = ["example.org", "10.0.0.7"]
     igns = [False, True]
     optss = [[], ["X=y"], ["ProxyJump=gw", "StrictHostKeyChecking=no"], ["BatchMode=yes", "A=b c"]]
-    auths = [["none"], ["key_str", "/k/id_a"], ["key_pathlib", "/k/id_b"], ["key_tbot", "/k/id_c"], ["pass", "s3cr et"]]
+    # (keys spelt with `~` or relative: the text goes to ssh / scp as configured, whoever expands it is the host that runs ssh)
+    auths = [["none"], ["key_str", "/k/id_a"], ["key_pathlib", "/k/id_b"], ["key_tbot", "/k/id_c"], ["pass", "s3cr et"],
+             ["key_pathlib", "~/.ssh/id_d"], ["key_str", "~/.ssh/id e"], ["key_pathlib", "keys/id_f"]]
     muxs = [False, True]
     allc = list(itertools.product(ports, users, hosts_, igns, optss, auths, muxs))
     if not thorough:
